@@ -10,4 +10,6 @@ cp /repo/go.sum harness/go.sum
 build/bin/extract -repo /repo -cfg harness/extract.d -out coq/theories/Gen -report build/extract_report.json
 # -k: a proof that no longer compiles must not stop the setup; the check of its property reports it
 (cd coq && make Makefile.coq >/dev/null && timeout 3000 make -f Makefile.coq -k -j16 all) || echo "setup: some Coq files did not compile (reported by the affected checks)"
+# optimisation only: capture Print Assumptions of every Props file once, in parallel (check.py re-does it on a stamp mismatch)
+python3 tools/warm_assumptions.py || true
 echo setup done
